@@ -21,7 +21,7 @@ import json
 from vlib import core, minifort as mf, fortgen
 
 HEADER = """From Coq Require Import List ZArith Bool. Import ListNotations.
-From PV Require Import Fort.Syntax Fort.Sem Base.Harness C11.Access C11.Proofs C11.Ext.
+From PV Require Import Fort.Syntax Fort.Sem Base.Harness C11.Access C11.Proofs C11.Ext C11.Struct.
 Definition c11_case := (list xstmt * obs * nat * bool)%type.
 (* (program, observed per-signature accesses, observed final location, lenient?) *)
 Definition c11_check (c : c11_case) : bool :=
@@ -43,9 +43,11 @@ Definition c11_xv_check (c : c11_xv) : bool :=
     end
   end.
 (* one case type so that all evaluations share the coqc runs *)
-Inductive c11_any := AObs (c : c11_case) | AXv (c : c11_xv) | AOk (ss : list stmt) (expect : bool).
+Inductive c11_any := AObs (c : c11_case) | AXv (c : c11_xv) | AOk (ss : list stmt) (expect : bool)
+  | ASt (tbl : list (list name * name)) (x : sstmt) (o : obs) (n : nat).
 Definition c11_any_check (a : c11_any) : bool :=
   match a with
+  | ASt tbl x o n => sobs_agrees tbl x o n
   | AObs c => c11_check c
   | AXv c => c11_xv_check c
   | AOk ss b => Bool.eqb (accesses_ok ss) b
@@ -497,6 +499,62 @@ def xstmt_to_coq(s, nm):
     return "(XCore %s)" % mf.stmt_to_coq(s, nm)
 
 
+# ------------------------------------------------------------------------------------ structure statements -> C11.Struct.sstmt
+def sexpr_to_coq(e, nm, tbl):
+    """-> Coq term of type sexpr, or None when the expression is outside the Coq form (a structure access inside an
+    array subscript or an intrinsic argument, or with a structure access in its own subscripts)"""
+    k = e[0]
+    if not has_sref_e(e):
+        return "(SCore %s)" % mf.expr_to_coq(e, nm)
+    if k == "sref":
+        comps = []
+        for c, ix in e[1]:
+            if any(has_sref_e(x) for x in ix):
+                return None
+            comps.append("(%d%%nat, [%s])" % (nm.get("#" + c), "; ".join(mf.expr_to_coq(x, nm) for x in ix)))
+        tbl["[" + "; ".join("%d%%nat" % nm.get("#" + c) for c, _ in e[1]) + "]"] = nm.get(sref_sig(e))
+        return "(SRef [%s])" % "; ".join(comps)
+    if k == "un":
+        a = sexpr_to_coq(e[2], nm, tbl)
+        return None if a is None else "(SUn %s %s)" % (e[1], a)
+    if k == "bin":
+        a, b = sexpr_to_coq(e[2], nm, tbl), sexpr_to_coq(e[3], nm, tbl)
+        return None if a is None or b is None else "(SBin %s %s %s)" % (e[1], a, b)
+    return None
+
+
+def sstmt_to_coq(s, nm):
+    """-> (table term, sstmt term) or None"""
+    tbl = {}
+    k = s[0]
+    term = None
+    if k == "sassign":
+        t = sexpr_to_coq(s[1], nm, tbl)
+        e = sexpr_to_coq(s[2], nm, tbl)
+        if t and e:
+            term = "(SAsg (TRef %s) %s)" % (t[len("(SRef "):-1], e)
+    elif k == "assign" and not any(has_sref_e(x) for x in s[2]):
+        e = sexpr_to_coq(s[3], nm, tbl)
+        if e:
+            term = "(SAsg (TVar %d%%nat [%s]) %s)" % (nm.get(s[1]), "; ".join(mf.expr_to_coq(x, nm) for x in s[2]), e)
+    elif k == "call":
+        args = [sexpr_to_coq(e, nm, tbl) for e in s[4]]
+        if all(args):
+            cf = {"user": "(CUser false)", "iparsed": "(CUser false)", "pure": "(CUser true)"}.get(s[1], "CIntrinsic")
+            term = "(SCallS %s [%s] [%s])" % (cf, "; ".join(INTENT_COQ[i] for i in s[3]), "; ".join(args))
+    elif k == "if" and not any(has_sref(x) or not is_core(x) for x in s[2] + s[3]):
+        c = sexpr_to_coq(s[1], nm, tbl)
+        if c:
+            term = "(SIfS %s %s %s)" % (c, mf.stmts_to_coq(s[2], nm), mf.stmts_to_coq(s[3], nm))
+    elif k == "while" and not any(has_sref(x) or not is_core(x) for x in s[2]):
+        c = sexpr_to_coq(s[1], nm, tbl)
+        if c:
+            term = "(SWhileS %s %s)" % (c, mf.stmts_to_coq(s[2], nm))
+    if term is None:
+        return None
+    return "[" + "; ".join("(%s, %d%%nat)" % (kk, v) for kk, v in sorted(tbl.items())) + "]", term
+
+
 # ------------------------------------------------------------------------------------ interpreter
 class Rec:
     """per statement path: union of variables read / written, and per execution of an assignment the
@@ -808,6 +866,7 @@ def targeted():
 # statements of language-level PSyIR outside MiniFortran: (Fortran statement, variables/components it reads,
 # those it modifies) written by hand from the Fortran semantics; only the property itself is evaluated on them
 WIDER_DECLS = """    integer :: i, j, n, s, t
+    real :: rr, rq
     integer, dimension(6) :: a, b, c
     integer, dimension(4, 4) :: d
     type(tt) :: q, r
@@ -828,6 +887,15 @@ WIDER = [
     ("r%arr(q%f) = s", {"q%f", "s"}, {"r%arr"}),
     ("s = abs(t) + max(a(i), b(j), n) + mod(c(1), 2) + sign(i, j)", {"t", "a", "i", "b", "j", "n", "c"}, {"s"}),
     ("if (s > sum(c)) t = a(n)", {"s", "c", "a", "n"}, {"t"}),
+    # the first argument of NON-inquiry intrinsics is read (a mis-set is_inquiry flag drops exactly this READ)
+    ("d = reshape(a(1:4) + c(j), (/2, 2/))", {"a", "c", "j"}, {"d"}),
+    ("s = exponent(rr) + int(fraction(rq))", {"rr", "rq"}, {"s"}),
+    ("d = transpose(d)", {"d"}, {"d"}),
+    ("a = pack(b, c > i)", {"b", "c", "i"}, {"a"}),
+    ("d = spread(a(1:4), 1, n)", {"a", "n"}, {"d"}),
+    ("a = cshift(b, n) + eoshift(c, j)", {"b", "n", "c", "j"}, {"a"}),
+    ("s = maxloc(a, 1) + minloc(b, 1) + ishft(t, i) + nint(rq)", {"a", "b", "t", "i", "rq"}, {"s"}),
+    ("t = merge(a(i), b(j), s > n) + iand(s, n) + floor(rr)", {"a", "i", "b", "j", "s", "n", "rr"}, {"t"}),
     ("do i = lbound(a, 1), ubound(b, n), j\n      c(i) = i\n    end do", {"n", "j", "i"}, {"i", "c"}),
 ]
 
@@ -884,6 +952,18 @@ def run(ctx):
     ctx.assumptions = ["coverage is per variable (signature), not per array element, as VariablesAccessInfo reports it",
                        "a callee reads its intent(in/inout) dummies and writes its intent(out/inout) dummies; ALLOCATE/DEALLOCATE "
                        "modify the allocated object and the STAT= variable"]
+    # regenerate the per-intrinsic inquiry flags of the tree under test (shared translator, fail-closed)
+    try:
+        import importlib.util
+        spec = importlib.util.spec_from_file_location("props_C12_translate_for_C11", core.VERIF / "props" / "C12" / "translate.py")
+        tmod = importlib.util.module_from_spec(spec)
+        spec.loader.exec_module(tmod)
+        flags = tmod.generate()
+        ctx.notes["intrinsics_translated"] = len(flags)
+        ctx.notes["intrinsics_flagged_inquiry"] = sorted(n for n, f in flags if f)
+    except Exception as e:  # pylint: disable=broad-except
+        ctx.violation({"property": "C11", "broken": "translator props/C12/translate.py (IntrinsicCall.Intrinsic table) failed: %s: %s"
+                       % (type(e).__name__, e)}, no_input=True)
     ok, rep = ctx.prove()
     ctx.log("proof ok=%s discharged=%d/%d" % (ok, ctx.cov["discharged"], ctx.cov["obligations"]))
 
@@ -990,9 +1070,18 @@ def run(ctx):
                 for x in sorted(xnames([s], set())):
                     nm.get(x)
                 lenient = contains_gap_form(s)
-                coq_cases.append("(%s, %s, %d%%nat, %s)" % ("[" + xstmt_to_coq(s, nm) + "]", obs_to_coq(r[1], nm), r[2],
+                coq_cases.append("(AObs (%s, %s, %d%%nat, %s))" % ("[" + xstmt_to_coq(s, nm) + "]", obs_to_coq(r[1], nm), r[2],
                                                             "true" if lenient else "false"))
                 case_info.append((pi, p, s, r, lenient, txt))
+            elif has_sref(s):
+                nm = mf.Names()
+                for x in sorted(xnames([s], set())):
+                    nm.get(x)
+                st = sstmt_to_coq(s, nm)
+                ctx.hist("struct_stmt_in_coq_form", bool(st))
+                if st:
+                    coq_cases.append("(ASt %s %s %s %d%%nat)" % (st[0], st[1], obs_to_coq(r[1], nm), r[2]))
+                    case_info.append((pi, p, s, r, contains_gap_form(s), txt))
         # whole routine body (list of nodes)
         if whole[0] == "ok":
             rd = set().union(*[rec.reads.get((i,), set()) for i in range(len(stmts))]) if stmts else set()
@@ -1003,7 +1092,7 @@ def run(ctx):
                 for x in sorted(xnames(stmts, set())):
                     nm.get(x)
                 lenient = any(contains_gap_form(s) for s in stmts)
-                coq_cases.append("(%s, %s, %d%%nat, %s)" % ("[" + "; ".join(xstmt_to_coq(s, nm) for s in stmts) + "]",
+                coq_cases.append("(AObs (%s, %s, %d%%nat, %s))" % ("[" + "; ".join(xstmt_to_coq(s, nm) for s in stmts) + "]",
                                                             obs_to_coq(whole[1], nm), whole[2], "true" if lenient else "false"))
                 case_info.append((pi, (), stmts, whole, lenient, txt))
         elif whole[0] == "error":
@@ -1072,7 +1161,7 @@ def run(ctx):
                if all(is_core(s) and not has_sref(s) for s in t)]
 
     # ---- model vs implementation, interpreter vs Coq, refusal table: one sharded evaluation
-    allc = ["(AObs %s)" % c for c in coq_cases] + ["(AXv %s)" % c for c in xv_cases] + okshape
+    allc = list(coq_cases) + ["(AXv %s)" % c for c in xv_cases] + okshape
     uniq = {}                                          # identical terms (EXIT, RETURN, repeated shapes) are evaluated once
     for i, c in enumerate(allc):
         uniq.setdefault(c, []).append(i)
@@ -1127,8 +1216,12 @@ def run(ctx):
             nm = mf.Names()
             for x in sorted(xnames(s if p == () else [s], set())):
                 nm.get(x)
-            term = "[" + "; ".join(xstmt_to_coq(x, nm) for x in (s if p == () else [s])) + "]"
-            shown = ctx.coq_eval_show(HEADER, ["(xaccesses %s, snd (xacc_block %s 0))" % (term, term)])
+            if p != () and has_sref(s):
+                st = sstmt_to_coq(s, nm)
+                shown = ctx.coq_eval_show(HEADER, ["sacc_stmt (enc_tbl %s) %s 0" % st])
+            else:
+                term = "[" + "; ".join(xstmt_to_coq(x, nm) for x in (s if p == () else [s])) + "]"
+                shown = ctx.coq_eval_show(HEADER, ["(xaccesses %s, snd (xacc_block %s 0))" % (term, term)])
             first = {"program": txt, "statement_path": list(p), "names": nm.ids, "implementation": r[1:], "model": shown}
         ctx.violation({"property": "C11",
                        "broken": "correspondence C11.Access/Ext (xaccesses) = VariablesAccessInfo" if strict_fail
